@@ -69,11 +69,17 @@ def wsOne : List Char → Nat
   | c :: _ => if isWs c then 1 else 0
   | [] => 0
 
+/-- the rest of a hex escape: up to `k` more hex digits, then one white space -/
+def escTail : Nat → List Char → Nat
+  | 0, s => wsOne s
+  | _ + 1, [] => 0
+  | k + 1, c :: r => if isHex c then 1 + escTail k r else wsOne (c :: r)
+
 /-- §4.3.7 code points consumed after the backslash: 1–6 hex digits and one white space, or any one code point;
     nothing at EOF -/
 def escLen : List Char → Nat
   | [] => 0
-  | c :: r => if isHex c then (1 + hexRun 5 r) + wsOne (r.drop (hexRun 5 r)) else 1
+  | c :: r => if isHex c then 1 + escTail 5 r else 1
 
 /-- §4.3.11 consume an ident sequence -/
 def nameLen : Nat → List Char → Nat
@@ -124,6 +130,15 @@ def numeric (n : Nat) (s : List Char) : TT × Nat :=
 
 /-! ## §4.3.5 strings, §4.3.6 urls, §4.3.14 bad-url remnants, §4.3.2 comments -/
 
+/-- a newline at the head of the input: CRLF is one newline (§3.3) -/
+def nlLen : List Char → Nat
+  | '\r' :: '\n' :: _ => 2
+  | c :: _ => if isNl c then 1 else 0
+  | [] => 0
+
+/-- what a backslash inside a string escapes: a newline (the string continues on the next line) or a code point -/
+def strEscLen (r : List Char) : Nat := if 0 < nlLen r then nlLen r else escLen r
+
 /-- code points consumed after the opening quote `q` (closing quote included), and `false` for a bad string
     (stopped in front of a raw newline) -/
 def strLen : Nat → Char → List Char → Nat × Bool
@@ -133,12 +148,8 @@ def strLen : Nat → Char → List Char → Nat × Bool
     if c == q then (1, true)
     else if isNl c then (0, false)
     else if c == '\\' then
-      match r with
-      | [] => (1, true)
-      | '\r' :: '\n' :: r' => let x := strLen n q r'; (3 + x.1, x.2)
-      | d :: r' =>
-        if isNl d then let x := strLen n q r'; (2 + x.1, x.2)
-        else let x := strLen n q (r.drop (escLen r)); ((1 + escLen r) + x.1, x.2)
+      if r.isEmpty then (1, true)
+      else let x := strLen n q (r.drop (strEscLen r)); ((1 + strEscLen r) + x.1, x.2)
     else let x := strLen n q r; (1 + x.1, x.2)
 
 /-- §4.3.14 consume the remnants of a bad url: up to and including `)` -/
@@ -162,10 +173,10 @@ def urlLen : Nat → List Char → Nat × Bool
     if c == ')' then (1, true)
     else if isWs c then
       let w := wsRun (c :: r)
-      match (c :: r).drop w with
-      | [] => (w, true)
-      | ')' :: _ => (w + 1, true)
-      | rest => (w + badUrlLen n rest, false)
+      let rest := (c :: r).drop w
+      if rest.isEmpty then (w, true)
+      else if rest.head? == some ')' then (w + 1, true)
+      else (w + badUrlLen n rest, false)
     else if c == '"' || c == '\'' || c == '(' || isNonPrintable c then (badUrlLen (n + 1) (c :: r), false)
     else if c == '\\' then
       if validEsc (c :: r) then let x := urlLen n (r.drop (escLen r)); ((1 + escLen r) + x.1, x.2)
@@ -208,21 +219,22 @@ def lowerAscii (s : List Char) : List Char := s.map Verif.Spec.CssValue.lowerCha
 
 def isQuote (c : Char) : Bool := c == '"' || c == '\''
 
+/-- does this name spell `url` (ASCII case-insensitively, after unescaping)? -/
+def isUrlName (f : List Char) : Bool := lowerAscii (unescape false f.length f) == ['u', 'r', 'l']
+
+/-- behind `url(` (`k` = length of the name, `r` = the input after the parenthesis): white space, then either a
+    quote — an ordinary function token — or an unquoted url -/
+def urlRest (n k : Nat) (r : List Char) : TT × Nat :=
+  let rest := r.drop (wsRun r)
+  if rest.isEmpty then (.url, k + 1 + wsRun r)
+  else if isQuote (rest.headD ' ') then (.function, k + 1)
+  else let x := urlLen n rest; (if x.2 then .url else .badUrl, k + 1 + wsRun r + x.1)
+
 def identLike (n : Nat) (s : List Char) : TT × Nat :=
   let k := nameLen n s
-  match s.drop k with
-  | '(' :: r =>
-    if lowerAscii (unescape false n (s.take k)) == ['u', 'r', 'l'] then
-      let w := wsRun r
-      match r.drop w with
-      | [] => (.url, k + 1 + w)
-      | c :: r' =>
-        if isQuote c then (.function, k + 1)
-        else
-          let x := urlLen n (c :: r')
-          (if x.2 then .url else .badUrl, k + 1 + w + x.1)
-    else (.function, k + 1)
-  | _ => (.ident, k)
+  if (s.drop k).head? == some '(' then
+    if isUrlName (s.take k) then urlRest n k (s.drop (k + 1)) else (.function, k + 1)
+  else (.ident, k)
 
 /-! ## §4.3.1 consume a token -/
 
@@ -234,7 +246,7 @@ def next (n : Nat) (s : List Char) : TT × Nat :=
     if isWs c then (.whitespace, 1 + wsRun r)
     else if isQuote c then let x := strLen n c r; (if x.2 then .string else .badString, 1 + x.1)
     else if c == '#' then
-      if (match r with | d :: _ => isName d | [] => false) || validEsc r then (.hash, 1 + nameLen n r) else (.delim, 1)
+      if isName (r.headD ' ') || validEsc r then (.hash, 1 + nameLen n r) else (.delim, 1)
     else if c == '(' then (.leftParen, 1)
     else if c == ')' then (.rightParen, 1)
     else if c == '+' then if startsNumber s then numeric n s else (.delim, 1)
@@ -260,6 +272,11 @@ def next (n : Nat) (s : List Char) : TT × Nat :=
     else (.delim, 1)
 
 abbrev Token := TT × List Char
+
+/-- the lexer contract for one lexeme: followed by one space, `p` reads as the single token `(tt, p)`
+    (so `p` is one token of type `tt`, closed: no unterminated string, url or escape that would swallow what follows) -/
+def lexOk (tt : TT) (p : List Char) : Bool :=
+  !p.isEmpty && (next (p.length + 1) (p ++ [' ']) == (tt, p.length))
 
 /-- the token loop; `acc` = tokens read so far, newest first -/
 def tokAux : Nat → List Char → List Token → List Token
@@ -306,8 +323,6 @@ def urlBody : Nat → List Char → List Char
 def urlValue (lex : List Char) : List Char :=
   let body := lex.drop (nameLen lex.length lex + 1)
   urlBody body.length (body.drop (wsRun body))
-
-def isUrlName (f : List Char) : Bool := lowerAscii (unescape false f.length f) == ['u', 'r', 'l']
 
 /-- the url a value stands for, whichever way it is spelt: a `url` token, or `url(` string `)`;
     `none` when the bytes are neither -/
